@@ -271,7 +271,7 @@ Section LModel.
 
   (* make([]byte, len(p.Meta)); copy *)
   Definition lclone_meta (m : lblob) : M lblob :=
-    l <- fresh ;; ret {| lb_val := lb_val m; lb_locs := [l] |}.
+    l <- fresh ;; ret {| lb_val := meta_val (lb_val m); lb_locs := [l] |}.
 
   Definition lclone_plan_in (o : opts) (p : lplan) : M lplan :=
     let st := keep_state o in
